@@ -242,6 +242,12 @@ pub mod metatoken {
         Name,
         Symbol,
         Decimals,
+        /// (fickle mode) metadata reported after `SwitchAfter` reads, and the reads so far
+        AltName,
+        AltSymbol,
+        AltDecimals,
+        SwitchAfter,
+        Reads,
     }
 
     /// A "token" whose metadata is whatever the test says (possibly unrepresentable remotely).
@@ -255,17 +261,40 @@ pub mod metatoken {
             env.storage().instance().set(&MetaKey::Symbol, &symbol);
             env.storage().instance().set(&MetaKey::Decimals, &decimals);
         }
+        /// does this read (of any metadata getter) come after the switch? counts the read
+        fn switched(env: &Env) -> bool {
+            let after: Option<u32> = env.storage().instance().get(&MetaKey::SwitchAfter);
+            match after {
+                None => false,
+                Some(n) => {
+                    let reads: u32 = env.storage().instance().get(&MetaKey::Reads).unwrap_or(0);
+                    env.storage().instance().set(&MetaKey::Reads, &(reads + 1));
+                    reads >= n
+                }
+            }
+        }
         pub fn name(env: Env) -> String {
-            env.storage().instance().get(&MetaKey::Name).unwrap()
+            let k = if Self::switched(&env) { MetaKey::AltName } else { MetaKey::Name };
+            env.storage().instance().get(&k).unwrap()
         }
         pub fn symbol(env: Env) -> String {
-            env.storage().instance().get(&MetaKey::Symbol).unwrap()
+            let k = if Self::switched(&env) { MetaKey::AltSymbol } else { MetaKey::Symbol };
+            env.storage().instance().get(&k).unwrap()
         }
         pub fn decimals(env: Env) -> u32 {
-            env.storage().instance().get(&MetaKey::Decimals).unwrap()
+            let k = if Self::switched(&env) { MetaKey::AltDecimals } else { MetaKey::Decimals };
+            env.storage().instance().get(&k).unwrap()
         }
         pub fn balance(_env: Env, _id: Address) -> i128 {
             0
+        }
+        /// a token that answers differently from its n-th metadata read on (counted from now)
+        pub fn make_fickle(env: Env, after_reads: u32, name: String, symbol: String, decimals: u32) {
+            env.storage().instance().set(&MetaKey::AltName, &name);
+            env.storage().instance().set(&MetaKey::AltSymbol, &symbol);
+            env.storage().instance().set(&MetaKey::AltDecimals, &decimals);
+            env.storage().instance().set(&MetaKey::SwitchAfter, &after_reads);
+            env.storage().instance().set(&MetaKey::Reads, &0u32);
         }
         /// a token whose issuer can rename it
         pub fn set_metadata(env: Env, name: String, symbol: String, decimals: u32) {
